@@ -55,10 +55,13 @@ def generate(prop, rng):
     ops = []
     kinds = [(3, "get"), (2, "contains"), (3, "iteritems"), (3, "ls"), (2, "info"), (1, "diff"),
              (2, "fs_ls"), (1, "fs_info"), (1, "fs_find"), (2, "fs_open"), (3, "view"), (1, "load"), (1, "reopen"),
-             (1, "evict_restore"), (2, "view_ls"), (1, "view_fs_find")]
+             (1, "evict_restore"), (2, "view_ls"), (1, "view_fs_find"), (3, "iter_nested")]
     for _ in range(rng.randint(4, 20)):
         ops.append({"op": gen.weighted(rng, kinds), "r": rng.random(), "r2": rng.random(),
                     "shallow": rng.random() < 0.3, "detail": rng.random() < 0.5, "absent": rng.random() < 0.15})
+        if ops[-1]["op"] == "iter_nested":
+            ops[-1].update(inner=rng.choice(["ls", "info_child", "get_child", "fs_ls", "other", "iter_prefix"]),
+                           at_dir=rng.random() < 0.6, at=rng.randrange(5), view=rng.random() < 0.6)
     return {
         "prop": prop,
         "cfg": {"sqlite": rng.random() < 0.35, "reflink": "enotsup", "tick_ns": 1_000_000},
@@ -252,6 +255,42 @@ def execute(sc, ctx):
                 return ("ok", sorted((key, _norm(e)) for key, e in idx.iteritems(prefix=prefix, shallow=op["shallow"])))
             except KeyError:
                 return ("KeyError",)
+        if k == "iter_nested":
+            # an iteration consumed step by step, with ANOTHER read access between two steps (a consumer
+            # that looks something up for the entry it was just handed): the order of accesses
+            # decides whether a directory is loaded by the iteration itself or behind its back
+            prefix = pick(dirkeys, r) if r2 < 0.5 else None
+            if prefix == ():
+                prefix = None
+            src = view(idx, lambda key: True) if op.get("view") else idx
+            out, done = [], False
+
+            def inner(key):
+                how = op.get("inner", "ls")
+                sub = sorted(kk for kk in keys if len(kk) > len(key) and kk[: len(key)] == key)
+                try:
+                    if how == "other" or F.get(key, ("file",))[0] != "dir":
+                        src.info(pick(inside or keys, r))
+                    elif how == "ls":
+                        list(src.ls(key, detail=False))
+                    elif how == "fs_ls":
+                        DataFileSystem(src).ls("/" + "/".join(key), detail=False)
+                    elif how == "iter_prefix":
+                        list(src.iteritems(prefix=key))
+                    elif sub:
+                        src.info(sub[0]) if how == "info_child" else src[sub[-1]]
+                except KeyError:
+                    pass
+
+            try:
+                for key, e in src.iteritems(prefix=prefix, shallow=op["shallow"]):
+                    out.append((key, _norm(e)))
+                    if not done and ((op.get("at_dir") and key in dobjs) or len(out) - 1 == op.get("at", 0)):
+                        done = True
+                        inner(key)
+            except KeyError:
+                return ("KeyError",)
+            return ("ok", sorted(out), done)
         if k == "ls":
             key = pick(dirkeys, r)
             try:
